@@ -194,6 +194,18 @@ def body_indexes(ctx, conv, kind, nreq, mode, bounds_coords=False):
     elif mode == 'custom_dim':
         out = cv.select_indexes(idxs, index_dimension='pick')
         check_selected(ctx, ds, out, info, kind, reqs, 'pick', 'select_indexes(index_dimension=)')
+    elif mode == 'out_of_range':
+        # an index that is not a location of the grid (one past the end, or further) selects nothing: it is refused
+        d = nreq % len(shape)
+        over = int(ctx.int('over', 0, shape[d]))
+        bad = tuple(shape[k] + over if k == d else c for k, c in enumerate(reqs[0]))
+        for call, args in ((cv.select_index, (native(cv, conv, kind, bad),)), (cv.select_indexes, ([idxs[0], native(cv, conv, kind, bad)],))):
+            try:
+                call(*args)
+            except (IndexError, ValueError, KeyError):
+                ctx.check(True, 'an index outside the grid is refused')
+            else:
+                ctx.check(False, 'an index outside the grid is refused')
     elif mode == 'mixed_kinds':
         kinds = list(info['kinds'])
         other = next(k for k in kinds if k != kind)
@@ -413,6 +425,8 @@ def cases(tier):
                            max_paths=5000, split=8)
             if kind in ('face', 'left'):
                 yield Case(f'index:{conv}:{kind}:custom_dim', body_indexes, dict(conv=conv, kind=kind, nreq=2, mode='custom_dim'), max_paths=5000, split=8)
+            for n in ((1, 2) if kind == 'face' else (1,)):
+                yield Case(f'index:{conv}:{kind}:out_of_range{n}', body_indexes, dict(conv=conv, kind=kind, nreq=n, mode='out_of_range'), max_paths=5000)
             if len(kinds) > 1 and kind == 'face':
                 yield Case(f'index:{conv}:{kind}:mixed_kinds', body_indexes, dict(conv=conv, kind=kind, nreq=1, mode='mixed_kinds'), max_paths=5000)
         nreq = 2 if q else 3
@@ -448,8 +462,67 @@ def functions():
             point_extraction._dataframe_to_dataset, point_extraction.NonIntersectingPoints]
 
 
+def saved_fill_checks(tier):
+    """'fill' keeps every row, misses hold missing data - also in the file the result is saved to."""
+    import os
+    import shutil
+    import tempfile
+    from emsarray.operations import point_extraction
+    VERIF = os.path.dirname(os.path.dirname(os.path.abspath(__file__)))
+    viol, notes = [], []
+    os.makedirs(os.path.join(VERIF, '.work'), exist_ok=True)
+    work = tempfile.mkdtemp(dir=os.path.join(VERIF, '.work'), prefix='c05-')
+    try:
+        encodings = {
+            'int32': dict(dtype='int32'), 'int32+nofill': dict(dtype='int32', _FillValue=None),
+            'int16+fill': dict(dtype='int16', _FillValue=numpy.int16(-1)), 'uint8+nofill': dict(dtype='uint8', _FillValue=None),
+            'packed': dict(dtype='int16', _FillValue=numpy.int16(0), scale_factor=0.5),
+            'float32+nofill': dict(dtype='float32', _FillValue=None),
+        }
+        for conv in ('cf1d', 'ugrid'):
+            for tag, enc in encodings.items():
+                dt = 'int32' if tag.startswith(('int', 'uint')) else 'float64'
+                if conv == 'cf1d':
+                    ds = builders.cf1d(2, 3, data_vars={'count': (('y', 'x'), numpy.arange(1, 7).reshape(2, 3).astype(dt))})
+                else:
+                    ds = builders.ugrid('tqp', fill='nan', data_vars={'count': (('nface',), numpy.arange(1, 4).astype(dt))})
+                ds['count'].encoding.update(enc)
+                polygons = ds.ems.polygons
+                pts = [polygons[len(polygons) - 1].representative_point(), None, polygons[0].representative_point()]
+                df = pandas.DataFrame({'lon': [(-170.0 if p is None else p.x) for p in pts], 'lat': [(-80.0 if p is None else p.y) for p in pts]})
+                case = f'saved-fill:{conv}:{tag}'
+                try:
+                    out = point_extraction.extract_dataframe(ds, df, ('lon', 'lat'), missing_points='fill')
+                    path = os.path.join(work, f'{conv}-{tag}.nc')
+                    out.to_netcdf(path)
+                    back = xarray.open_dataset(path).load()
+                    back.close()
+                except Exception as e:
+                    viol.append(dict(case=case, label="'fill' result can be saved and read back", inputs={}, detail=f'{type(e).__name__}: {e}'[:800], how='real save / reopen'))
+                    continue
+                want = [float(ds['count'].values.ravel()[-1]), numpy.nan, float(ds['count'].values.ravel()[0])]
+                for where, got in (('in memory', out['count'].values), ('after save and reopen', back['count'].values)):
+                    got = numpy.asarray(got, dtype=float)
+                    if not (got.shape == (3,) and numpy.array_equal(got, numpy.array(want), equal_nan=True)):
+                        viol.append(dict(case=case, label=f"'fill': every row kept, hits hold their cell's value, misses hold missing data ({where})",
+                                         inputs=dict(encoding={k: str(v) for k, v in enc.items()}), detail=f'{got.tolist()} != {want}', how='real save / reopen'))
+                notes.append(case)
+    finally:
+        shutil.rmtree(work, ignore_errors=True)
+    return viol, notes
+
+
 def run(tier, seed=0, replay=None, procs=None, only=None):
     if replay:
+        import json
+        data = json.load(open(replay))
+        if str(data.get('case', '')).startswith('saved-fill:'):
+            rv, _ = saved_fill_checks('quick')
+            rv = [v for v in rv if v['case'] == data['case']]
+            for v in rv:
+                print(v['label'], v['detail'])
+                print(f'VIOLATION property={PROP} replay={replay}')
+            return 1 if rv else 0
         return replay_file(replay, list(cases('thorough')) + list(cases('quick')))
     cs = list(cases(tier))
     if only:
@@ -457,6 +530,7 @@ def run(tier, seed=0, replay=None, procs=None, only=None):
     q = tier == 'quick'
     return main_run(
         PROP, tier, cs, functions=functions(), seed=seed, procs=procs,
+        late_checks=(lambda: (lambda rv, notes: (rv, [], dict(saved_fill=notes)))(*saved_fill_checks(tier))) if not only else None,
         bounds=dict(
             datasets='one dataset per convention (2x2 grids, mesh tqp) with float variables on every grid kind (extra dimension '
                      'first/last, transposed), an int32 variable, a non-spatial variable and the geometry variables',
